@@ -6,7 +6,9 @@
                checkExpression test the lvalue, the refusal conditions of isParameterCompatible / visitInstance, whether the
                binder callbacks force CONSTANT)                                                                   (tie T)
  2 prove       UtapModel.Props.C12: C12_reject / C12_accept and their liftings, for paths and types of any depth
- 3 correspond  generated models (constness source x write form x access path, const / mutable twins) through the real
+ 3 correspond  generated models (constness source x write form x access path x place of the write, const / mutable twins;
+               write forms include unparenthesised chains of assignment operators, places include code behind a returning
+               statement, sources include parameters of dynamic templates) through the real
                parser + type checker (harness/c12.cpp); every write target and call argument the library saw is fed to
                the Lean model (drv_c12): isModifiableLValue / isLValue / isUniqueReference / is_mutable / is_constant /
                static type / refusal must agree                                                                   (tie C)
@@ -235,6 +237,10 @@ SOURCES = {
     "function-cref-param": ("fun",),                 # const T &x
     "template-param": ("edge", "tfun"),              # const T x
     "template-cref-param": ("edge", "tfun"),         # const T &x
+    # a dynamic template is announced (`dynamic PT(.. x);`) and defined (template PT with its own parameter list): two spellings of
+    # the same parameter.  Const where the definition says const -- whether the announcement agrees or not
+    "dynamic-template-param": ("edge", "tfun"),                   # dynamic PT(T x);        PT(const T x)
+    "dynamic-template-param-announced-const": ("edge", "tfun"),   # dynamic PT(const T x);  PT(const T x)
     "const-member": ("fun", "edge") + HOOKS,         # struct { const E k[n]; int v; } x;   target x.k[..]
     "binder-forall": ("fun", "edge") + HOOKS,
     "binder-exists": ("fun", "edge") + HOOKS,
@@ -251,20 +257,42 @@ SOURCES = {
 BINDERS = [s for s in SOURCES if s.startswith("binder-")]
 
 ASSOPS = ["+=", "-=", "*=", "/=", "%=", "&=", "|=", "^=", "<<=", ">>="]
+# chains of assignment operators without parentheses (they group to the right): the write to x is the right operand of another
+# assignment -- "chain<o>" = `m0 = x <o> 1`, "opchain<o1>:<o2>" = `m0 <o1> x <o2> 1`, "chain3" = `m0 = m1 = x = 1`
+CHAIN_FORMS = ["chain" + o for o in ["="] + ASSOPS] + ["chain3"]
+OPCHAIN_FORMS = ["opchain%s:%s" % (o1, o2) for o1 in ASSOPS for o2 in ["="] + ASSOPS]
 INT_FORMS = ["op" + o for o in ASSOPS] + ["pre++", "post++", "pre--", "post--", "nested-rhs", "preinc-postinc", "for-step"]
 ANY_FORMS = ["=", "iif-then", "iif-else", "comma-list", "nested-lhs", "fun-ref", "fun-ref-iif", "inst-ref", "spawn-ref"]
 FORMS = ANY_FORMS + INT_FORMS
+
+# where in a function body the write stands: after a statement that returns on every path (the code behind it is unreachable,
+# it is still code of the model and has to be checked like any other), and after a conditional return as the reachable control.
+# place -> (return type of the function, statements with %s = the write, last statement of the function)
+PLACES = {
+    "after-return": ("void", "return; %s", ""),
+    "after-return-value": ("int", "return 1; %s", "return 0;"),
+    "after-if-else-return": ("void", "if (b0) { m0 = 0; return; } else { return; } %s", ""),
+    "after-if-else-return-value": ("int", "if (b0) { return 1; } else { m0 = 0; return 2; } %s", "return 0;"),
+    "after-block-return": ("void", "{ m0 = 0; return; } %s", ""),
+    "after-nested-block-return": ("void", "{ { return; } } %s", ""),
+    "after-do-return": ("void", "do { return; } while (b0); %s", ""),
+    "after-return-in-inner-block": ("void", "if (b0) { return; %s }", ""),
+    "after-return-in-loop-body": ("void", "while (b0) { return; %s }", ""),
+    "after-conditional-return": ("void", "if (b0) { return; } %s", ""),
+}
 
 
 class Case:
     pass
 
 
-def build_case(r, source, form, scope, const, t, path, shape, xml, uninst=False):
+def build_case(r, source, form, scope, const, t, path, shape, xml, uninst=False, place=None):
     """-> Case with .text (model), .meta   or None when the combination does not exist"""
     binder = source in BINDERS
     if scope not in SOURCES[source]:
         return None
+    if place and (scope not in ("fun", "tfun") or form in ("for-step", "comma-list")):
+        return None        # (these two forms are rendered as a for statement of their own)
     shadow = source.endswith("-shadow")
     if shadow and not const:
         return None        # (the twin is that of the plain binder)
@@ -341,6 +369,13 @@ def build_case(r, source, form, scope, const, t, path, shape, xml, uninst=False)
         g.append("const %s ga = %s;" % (tn, init_text(t)) if const else "%s ga;" % tn)
         targs.append("ga")
         decl = None
+    elif source.startswith("dynamic-template-param"):
+        if path or t.kind not in ("int", "bint", "bool"):
+            return None      # parameters of dynamic templates are integers or booleans
+        announced_const = const and source.endswith("-announced-const")
+        g.append("dynamic PT(%s%s x);" % ("const " if announced_const else "", tn))
+        tparams.append("%s%s x" % (c, tn))
+        decl = None
     elif source == "const-member":
         # the member k carries the generated type t as an array of (const) elements; the sibling v is a plain int
         if t.kind != "arr":
@@ -399,12 +434,12 @@ def build_case(r, source, form, scope, const, t, path, shape, xml, uninst=False)
     else:
         g.append("%s mv; %s m2;" % (etn, etn))
         val = "mv"
-    if form in INT_FORMS and et.kind not in ("int", "bint"):
+    if (form in INT_FORMS or form.startswith(("chain", "opchain"))) and et.kind not in ("int", "bint"):
         return None
     E = target
     if form == "=":
         stmt = "%s = %s" % (E, val)
-    elif form.startswith("op"):
+    elif form.startswith("op") and not form.startswith("opchain"):
         stmt = "%s %s 1" % (E, form[2:])
     elif form == "pre++":
         stmt = "++%s" % E
@@ -422,6 +457,13 @@ def build_case(r, source, form, scope, const, t, path, shape, xml, uninst=False)
         stmt = "m0 = 0, %s = %s" % (E, val)
     elif form == "nested-rhs":
         stmt = "m0 = (%s = 1)" % E
+    elif form == "chain3":
+        g.append("int m1;")
+        stmt = "m0 = m1 = %s = 1" % E
+    elif form.startswith("chain"):
+        stmt = "m0 = %s %s 1" % (E, form[5:])
+    elif form.startswith("opchain"):
+        stmt = "m0 %s %s %s 1" % (form[7:].split(":")[0], E, form[7:].split(":")[1])
     elif form == "nested-lhs":
         stmt = "(%s = %s) = %s" % (E, val, val)
     elif form == "preinc-postinc":
@@ -481,6 +523,8 @@ def build_case(r, source, form, scope, const, t, path, shape, xml, uninst=False)
             body_stmt = "for (%s; m0 < 1; m0++) { }" % stmt
         else:
             body_stmt = stmt + ";"
+        if place:
+            body_stmt = PLACES[place][1] % body_stmt
         if source == "block-local":
             body_stmt = "{ %s %s }" % (" ".join(fl), body_stmt)
             fl = []
@@ -495,7 +539,8 @@ def build_case(r, source, form, scope, const, t, path, shape, xml, uninst=False)
             g.append("%s { m0 = 0 }" % other)
     fun_text = None
     if body_stmt is not None:
-        fun_text = "void f(%s) { %s %s }" % (", ".join(fparams), " ".join(fl), body_stmt)
+        ret, _, last = PLACES[place] if place else ("void", None, "")
+        fun_text = "%s f(%s) { %s %s %s}" % (ret, ", ".join(fparams), " ".join(fl), body_stmt, last + " " if last else "")
     elif fparams or fl:
         return None
     templ = None
@@ -505,6 +550,8 @@ def build_case(r, source, form, scope, const, t, path, shape, xml, uninst=False)
             tdecls.append(fun_text)
             fun_text = None
         templ = ("PT", tparams, " ".join(tdecls), select, guardq, upd or "m0 = 0", "PI" if tparams else None, targs)
+        if source.startswith("dynamic-template-param"):
+            templ = templ[:6] + ("SKIP", [])       # processes of a dynamic template are spawned, not listed in the system line
     elif select:
         return None
     gtext = "\n".join(g[:1] + [d for d in g[1:2] if d.startswith("typedef scalar")] + env.defs +
@@ -527,6 +574,8 @@ def build_case(r, source, form, scope, const, t, path, shape, xml, uninst=False)
     k.mode = "XML" if xml else "XTA"
     k.meta = {"source": source_full, "form": form, "scope": scope, "shape": shape, "const": const, "target": target,
               "leaf": et.kind, "decl": dsx, "site": site, "instantiated": not (uninst and templ is not None and not tparams)}
+    if place:
+        k.meta["place"] = place
     return k
 
 
@@ -616,6 +665,37 @@ def gen_cases(ctx):
                             k = build_case(r, source, form, scope, const, mk(), path, shape, xml, uninst=(len(cases) % 4 == 3))
                             if k:
                                 cases.append(k)
+    # (1b) chains of assignment operators and writes behind a returning statement: per source x scope x path a sample of the
+    #      operators / operator pairs / forms in the quick tier, all operators and forms in the thorough tier
+    places = list(PLACES)
+    for source in SOURCES:
+        for scope in SOURCES[source]:
+            for shape, mk, path in fixed_shapes():
+                forms = (r.sample(CHAIN_FORMS, 4) + r.sample(OPCHAIN_FORMS, 2)) if not ctx.thorough else (CHAIN_FORMS + r.sample(OPCHAIN_FORMS, 12))
+                todo = [(form, None) for form in forms]
+                if scope in ("fun", "tfun"):
+                    for place in places:
+                        todo += [(form, place) for form in (r.sample(FORMS + CHAIN_FORMS, 3) if not ctx.thorough else FORMS + CHAIN_FORMS)]
+                done = set()
+                for form, place in todo:
+                    if place in done:
+                        continue        # quick tier: the first of the three forms that exists for this path
+                    xml = r.random() < 0.3
+                    for const in (True, False):
+                        k = build_case(r, source, form, scope, const, mk(), path, shape, xml, uninst=(len(cases) % 4 == 3), place=place)
+                        if k:
+                            cases.append(k)
+                            if place and not ctx.thorough:
+                                done.add(place)
+    # parameters of dynamic templates may be booleans as well
+    for source in ("dynamic-template-param", "dynamic-template-param-announced-const"):
+        for scope in SOURCES[source]:
+            for form in FORMS:
+                for const in (True, False):
+                    for xml in (False, True):
+                        k = build_case(r, source, form, scope, const, T("bool"), "", "plain-bool", xml)
+                        if k:
+                            cases.append(k)
     # binders range over bounded integers / scalar sets
     for source in BINDERS:
         for scope in SOURCES[source]:
@@ -635,7 +715,8 @@ def gen_cases(ctx):
         tries += 1
         source = r.choice(nonbinder)
         scope = r.choice(SOURCES[source])
-        form = r.choice(FORMS)
+        form = r.choice(FORMS) if r.random() < 0.8 else r.choice(CHAIN_FORMS + OPCHAIN_FORMS)
+        place = r.choice(list(PLACES)) if scope in ("fun", "tfun") and r.random() < 0.25 else None
         leaves = ("int", "int", "bint", "bool") if r.random() < 0.3 else ("int", "int", "bint")
         t = rand_type(r, r.randint(1, 5 if not ctx.thorough else 7), leaves)
         path, shape, _ = rand_path(r, t, const_index_only=(form == "inst-ref"))
@@ -645,7 +726,7 @@ def gen_cases(ctx):
         for const in (True, False):
             r.setstate(st)
             tt = clone_type(t)
-            k = build_case(r, source, form, scope, const, tt, path, "deep:" + shape, xml, uninst=(tries % 4 == 3))
+            k = build_case(r, source, form, scope, const, tt, path, "deep:" + shape, xml, uninst=(tries % 4 == 3), place=place)
             if k:
                 cases.append(k)
     return cases, n_exh
@@ -845,7 +926,7 @@ def run(ctx):
             dist[key][val] = dist[key].get(val, 0) + 1
         for e in x["E"]:
             dist["diag"][e] = dist["diag"].get(e, 0) + 1
-        shape_key = "%s/%s/%s" % (m["source"], m["form"], m["shape"].replace("deep:", ""))
+        shape_key = "%s/%s/%s" % (m["source"], m["form"] + ("@" + m["place"] if m.get("place") else ""), m["shape"].replace("deep:", ""))
         replay = {"mode": k.mode, "model": k.text, "meta": m, "verdict": x["V"], "diagnostics": x["E"],
                   "how": "./check C12 --replay <this file>  (harness/c12.cpp: parse + type check the model)"}
         if m.get("sibling"):
